@@ -15,7 +15,8 @@ open Wm Wm.Poison Wm.Relay
          policy = budget:<k>:<work>:<dead> (retries header >= k -> dead letter) | meta:<key> (topic = that metadata value)
          →  as rq, plus G:<metadata of the message the topic function was shown | ! if it was not called>
     fwdtopic <configured>                        →  <topic the forwarder subscribes to>
-    fwd <ackWhenCannotUnwrap> <bad | e:<dest>:<uuid>:<payload>:<meta>> <dest> <class>
+    fwd <ackWhenCannotUnwrap> <bad | e:<dest>:<uuid>:<payload>:<meta>> <dest> <class> <configured forwarder topic>
+         (class and forwarder topic are for the harness/replay only: what the forwarder does may not depend on them)
          →  P<n>[:<topic>|<uuid>|<payload>|<meta>|<unsettled>;…] S:<ack|nack>
     fpub <cfgTopic> <topic> <- | uuid|payload|meta;…> <dest>
          →  C<n>[:<topic>|<k>|<dest>~<uuid>~<payload>~<meta>+…;…] E:<0|1> U:<fresh envelope uuids>
@@ -403,7 +404,7 @@ def handleM : List String → String
   | ["fwdtopic", t] => match hexDec t with
     | some t => hexEnc (effTopic t)
     | none => "bad-op"
-  | ["fwd", a, e, d, _] => match parseBit a, parseParsed e, parseDest d with
+  | ["fwd", a, e, d, _, _] => match parseBit a, parseParsed e, parseDest d with
     | some a, some e, some d => fwdModel a e d
     | _, _, _ => "bad-op"
   | ["fpub", c, t, ms, d] => match hexDec c, hexDec t, parseMsgs ms, parseDest d with
@@ -439,7 +440,7 @@ def handleP (req obs : List String) : String :=
   | "rqp" :: rest => match parseRqp rest with
     | some r => rqpMonitor r obs
     | none => "bad-op"
-  | ["fwd", a, e, d, _] => match parseBit a, parseParsed e, parseDest d, obs with
+  | ["fwd", a, e, d, _, _] => match parseBit a, parseParsed e, parseDest d, obs with
     | some a, some e, some d, [p, s] => fwdMonitor a e d p s
     | _, _, _, _ => "bad-op"
   | ["fpub", c, t, ms, d] => match hexDec c, hexDec t, parseMsgs ms, parseDest d with
